@@ -513,6 +513,231 @@ fn run_generators(r: &mut Report, p: &Progress) {
     } }
 }
 
+
+// ------------------------------------------------------------------------------------------------ (d) edge lengths far from the origin
+/// a (nx x ny) grid of quads with the given pitch, sheared and lifted so that no two edges of a quad have the same
+/// length, placed at `off`; pitch and offsets are dyadic or short decimals: the stored coordinates are whatever f64
+/// holds, and the oracle works from those STORED coordinates
+fn far_grid(nx: u32, ny: u32, pitch: f64, off: (f64, f64, f64)) -> (Vec<Point3>, Vec<[u32; 3]>) {
+    let mut v = Vec::new();
+    for j in 0..=ny { for i in 0..=nx {
+        v.push(Point3::new(off.0 + pitch * (i as f64 + 0.125 * j as f64), off.1 + pitch * 1.5 * j as f64, off.2 + pitch * 0.25 * (i * j) as f64));
+    } }
+    let id = |i: u32, j: u32| j * (nx + 1) + i;
+    let mut f = Vec::new();
+    for j in 0..ny { for i in 0..nx {
+        f.push([id(i, j), id(i + 1, j), id(i + 1, j + 1)]);
+        f.push([id(i, j), id(i + 1, j + 1), id(i, j + 1)]);
+    } }
+    (v, f)
+}
+/// "the edge table lists each undirected edge once WITH ITS LENGTH": the length of edge [a, b] is |v_b - v_a|, the
+/// norm of the coordinate differences of the two stored vertices (each difference of nearby coordinates is exact or
+/// correctly rounded, so this value is good to a few ulp whatever the distance of the mesh from the origin);
+/// demanded to RELATIVE 1e-12
+fn check_lengths(r: &mut Report, verts: &[Point3], faces: &[[u32; 3]], label: &str) {
+    r.case();
+    let mesh = Mesh::new(verts.to_vec(), faces.to_vec(), false);
+    let stored = mesh.vertices().to_vec();
+    let desc = || format!("{} ({} vertices, {} faces)", label, verts.len(), faces.len());
+    match mesh.calc_edges() {
+        Err(_) => r.check(false, "edges: a mesh with no edge in more than two faces has an edge table", desc),
+        Ok(me) => {
+            let mut und: Vec<(u32, u32)> = Vec::new();
+            for f in faces { for e in dir_edges(f) { und.push(ue(e.0, e.1)); } }
+            und.sort(); und.dedup();
+            let mut listed: Vec<(u32, u32)> = me.edges.iter().map(|e| ue(e[0], e[1])).collect();
+            listed.sort();
+            r.check(listed == und, "edges: the edge table lists each undirected edge exactly once", desc);
+            r.check(me.edge_lengths.len() == me.edges.len(), "edges: one length per listed edge", desc);
+            let mut worst: Option<(usize, f64, f64)> = None;
+            for (k, (e, l)) in me.edges.iter().zip(me.edge_lengths.iter()).enumerate() {
+                if e[0] as usize >= stored.len() || e[1] as usize >= stored.len() { continue; }
+                let (a, b) = (stored[e[0] as usize], stored[e[1] as usize]);
+                let (dx, dy, dz) = (b.x - a.x, b.y - a.y, b.z - a.z);
+                let t = (dx * dx + dy * dy + dz * dz).sqrt();
+                let ok = l.is_finite() && t > 0.0 && (*l - t).abs() <= 1e-12 * t;
+                if !ok && worst.map(|w| (w.1 - w.2).abs() / w.2 < (*l - t).abs() / t).unwrap_or(true) { worst = Some((k, *l, t)); }
+            }
+            r.check(worst.is_none(), "edges: every listed edge carries its length |v1 - v0| to relative 1e-12, wherever the mesh lies (meshes far from the origin, fine pitch)", || {
+                let (k, l, t) = worst.unwrap();
+                let e = me.edges[k];
+                let (a, b) = (stored[e[0] as usize], stored[e[1] as usize]);
+                format!("{}: edge {:?} between ({:?}, {:?}, {:?}) and ({:?}, {:?}, {:?}) has edge_lengths[{}] = {:?} but the vertices are {:?} apart (relative error {:e})", desc(), e, a.x, a.y, a.z, b.x, b.y, b.z, k, l, t, (l - t).abs() / t)
+            });
+        }
+    }
+}
+fn run_far_meshes(r: &mut Report, p: &Progress) {
+    let offsets = [(0.0, 0.0, 0.0), (1500.0, -2000.0, 350.0), (-1536.0, 2048.0, 352.0), (123456.789, -98765.4321, 5000.5), (-0.001, 0.002, 1.0e6)];
+    let pitches = [5.0e-6, 1.0e-4, 0.0009765625, 0.03125, 0.3, 1.0];
+    let mut k = 0i64;
+    for off in offsets { for pitch in pitches { for (nx, ny) in [(1u32, 1u32), (4, 3), (12, 9)] {
+        k += 1; p.at(&[3, k]);
+        let (v, f) = far_grid(nx, ny, pitch, off);
+        check_lengths(r, &v, &f, &format!("{}x{} grid of pitch {:?} at offset {:?}", nx, ny, pitch, off));
+    } } }
+    // the library's own generators moved away from the origin (translation only: lengths are those of the moved vertices)
+    for off in offsets { for s in [5.0e-6, 0.001, 1.0] {
+        k += 1; p.at(&[4, k]);
+        let b = Mesh::create_box(2.0 * s, 3.0 * s, 5.0 * s, false);
+        let v: Vec<Point3> = b.vertices().iter().map(|q| Point3::new(q.x + off.0, q.y + off.1, q.z + off.2)).collect();
+        check_lengths(r, &v, &b.faces().to_vec(), &format!("create_box({:?}, {:?}, {:?}) moved by {:?}", 2.0 * s, 3.0 * s, 5.0 * s, off));
+        let c = Mesh::create_cylinder(2.0 * s, 3.0 * s, 12);
+        let v: Vec<Point3> = c.vertices().iter().map(|q| Point3::new(q.x + off.0, q.y + off.1, q.z + off.2)).collect();
+        check_lengths(r, &v, &c.faces().to_vec(), &format!("create_cylinder({:?}, {:?}, 12) moved by {:?}", 2.0 * s, 3.0 * s, off));
+    } }
+}
+
+// ------------------------------------------------------------------------------------------------ (e) patches on ANY face list
+/// the clauses of the patch decomposition that hold for EVERY face list (inconsistent winding, vertex-only contacts,
+/// repeated faces included): every face in exactly one non-empty patch; faces that share a patch are connected through
+/// shared edges.  "Faces connected through shared edges share a patch" is demanded when no directed edge occurs in two
+/// faces (consistent winding; vertex-only contacts allowed) - with a flipped face the unchanged code's answer depends on
+/// the hash-chosen start face (DESIGN D8), which is not a verdict a deterministic check can give.
+/// The call is repeated `runs` times: std's RandomState differs per HashSet, so the start face changes from call to call.
+fn check_patches_any(r: &mut Report, verts: &[Point3], faces: &[[u32; 3]], runs: usize, label: &str) {
+    r.case();
+    let nf = faces.len();
+    let mesh = Mesh::new(verts.to_vec(), faces.to_vec(), false);
+    let mut d = Dsu::new(nf);
+    for a in 0..nf { for b in 0..a {
+        if dir_edges(&faces[a]).iter().any(|e| dir_edges(&faces[b]).iter().any(|g| ue(e.0, e.1) == ue(g.0, g.1))) { d.union(a, b); }
+    } }
+    let comp_of: Vec<usize> = (0..nf).map(|i| d.find(i)).collect();
+    let comp = d.groups();
+    let mut de: Vec<(u32, u32)> = Vec::new();
+    let mut wound = true;
+    for f in faces { for e in dir_edges(f) { if de.contains(&e) { wound = false; } de.push(e); } }
+    let all: Vec<usize> = (0..nf).collect();
+    let (mut part_ok, mut sound_ok, mut max_ok) = (true, true, true);
+    let mut bad: Option<Vec<Vec<usize>>> = None;
+    for _run in 0..runs {
+        let patches = mesh.get_patches();
+        let mut flat: Vec<usize> = patches.iter().flatten().copied().collect();
+        flat.sort();
+        let p_ok = flat == all && patches.iter().all(|q| !q.is_empty());
+        let s_ok = patches.iter().all(|q| q.iter().all(|&i| i < nf && comp_of[i] == comp_of[q[0].min(nf - 1)]));
+        let m_ok = !wound || !p_ok || canon(&patches) == comp;
+        if !(p_ok && s_ok && m_ok) && bad.is_none() { bad = Some(patches.clone()); }
+        part_ok &= p_ok; sound_ok &= s_ok; max_ok &= m_ok;
+    }
+    let desc = || format!("{} faces {:?} ({} calls) get_patches {:?}", label, faces, runs, bad);
+    r.check(part_ok, "patches: every face is in exactly one patch", desc);
+    r.check(sound_ok, "patches: two faces that share a patch are connected through shared edges (any winding, any contact)", desc);
+    r.check(max_ok, "patches: two faces share a patch exactly when they are connected through shared edges", desc);
+}
+fn flip(faces: &[[u32; 3]], which: &[usize]) -> Vec<[u32; 3]> {
+    faces.iter().enumerate().map(|(k, f)| if which.contains(&k) { [f[0], f[2], f[1]] } else { *f }).collect()
+}
+fn run_flipped_meshes(r: &mut Report, p: &Progress) {
+    let verts = base_vertices();
+    let mut tri: Vec<[u32; 3]> = Vec::new();
+    for a in 0..5u32 { for b in 0..5u32 { for c in 0..5u32 { if a != b && b != c && a != c { tri.push([a, b, c]); } } } }
+    let mut buf: Vec<i64> = Vec::new();
+    // every ordered list of 1..=2 faces (64 calls each) and every ordered list of 3 faces over the vertices 0..4 whose
+    // first face is one of [0,1,2] / [0,2,1] (8 calls each) - the lists skipped are relabelings of these
+    for len in 1..=3usize {
+        let mut idx = vec![0usize; len];
+        loop {
+            let faces: Vec<[u32; 3]> = idx.iter().map(|&i| tri[i]).collect();
+            let run_it = len < 3 || (faces[0] == [0, 1, 2] || faces[0] == [0, 2, 1]);
+            if run_it {
+                buf.clear();
+                for f in faces.iter() { buf.extend_from_slice(&[f[0] as i64, f[1] as i64, f[2] as i64]); }
+                p.at(&buf);
+                check_patches_any(r, &verts, &faces, if len < 3 { 64 } else { 8 }, "Mesh::new(5 fixed vertices)");
+            }
+            let mut k = 0;
+            while k < len { idx[k] += 1; if idx[k] < tri.len() { break; } idx[k] = 0; k += 1; }
+            if k == len { break; }
+        }
+    }
+    // larger meshes with flipped faces, 64 calls each
+    let mut fam: Vec<(String, Vec<Point3>, Vec<[u32; 3]>)> = Vec::new();
+    let bx = Mesh::create_box(2.0, 3.0, 5.0, false);
+    fam.push(("create_box(2, 3, 5)".into(), bx.vertices().to_vec(), bx.faces().to_vec()));
+    let cy = Mesh::create_cylinder(1.0, 2.0, 6);
+    fam.push(("create_cylinder(1, 2, 6)".into(), cy.vertices().to_vec(), cy.faces().to_vec()));
+    let (v, f) = grid(3, 3, &[], 0.0, 0); fam.push(("3x3 grid".into(), v, f));
+    let (v, f) = grid(4, 1, &[(2, 0)], 0.0, 0); fam.push(("4x1 strip cut into two components".into(), v, f));
+    let tv = vec![Point3::new(0.0, 0.0, 0.0), Point3::new(2.0, 0.0, 0.0), Point3::new(0.0, 3.0, 0.0), Point3::new(0.0, 0.0, 5.0)];
+    let tf = vec![[0u32, 2, 1], [0, 1, 3], [1, 2, 3], [2, 0, 3]];
+    fam.push(("tetrahedron".into(), tv, tf));
+    // two triangles meeting at a vertex only, and a bow-tie of two fans
+    fam.push(("two faces with a vertex-only contact".into(), base_vertices(), vec![[0, 1, 2], [0, 3, 4]]));
+    for (name, v, f) in fam.iter() {
+        let nf = f.len();
+        let mut sets: Vec<Vec<usize>> = vec![vec![]];
+        for a in 0..nf { sets.push(vec![a]); }
+        for a in 0..nf { for b in 0..a { if nf <= 12 || (a + b) % 3 == 0 { sets.push(vec![b, a]); } } }
+        sets.push((0..nf).step_by(2).collect());
+        sets.push((0..nf).collect());
+        for which in sets.iter() {
+            let fs = flip(f, which);
+            buf.clear();
+            for t in fs.iter() { buf.extend_from_slice(&[t[0] as i64, t[1] as i64, t[2] as i64]); }
+            p.at(&buf);
+            check_patches_any(r, v, &fs, 64, &format!("{} with faces {:?} flipped", name, which));
+        }
+    }
+}
+
+// ------------------------------------------------------------------------------------------------ (f) many separate chains
+/// the clauses of check_chain for vertex ids beyond 0..5 (no fixed-size tables)
+fn check_chain_big(r: &mut Report, pairs: &[[u32; 2]], label: &str, expect_chains: Option<usize>) {
+    r.case();
+    let chains = crate::common::indices::chained_indices(pairs);
+    let desc = || format!("{}: chained_indices({:?}) = {:?}", label, pairs, chains);
+    let mut want: Vec<(u32, u32)> = pairs.iter().map(|q| (q[0], q[1])).collect();
+    want.sort();
+    let mut got: Vec<(u32, u32)> = Vec::new();
+    for c in chains.iter() { for w in c.windows(2) { got.push((w[0], w[1])); } }
+    got.sort();
+    r.check(chains.iter().all(|c| c.len() >= 2), "chaining: every chain has at least two entries, all of them input vertex ids", desc);
+    r.check(got.iter().all(|g| want.binary_search(g).is_ok()), "chaining: consecutive chain entries are an input pair with its orientation kept", desc);
+    r.check(got == want, "chaining: every input pair is consumed exactly once", desc);
+    let outdeg = |v: u32| pairs.iter().filter(|q| q[0] == v).count();
+    let indeg = |v: u32| pairs.iter().filter(|q| q[1] == v).count();
+    let mut maximal = true;
+    for (i, a) in chains.iter().enumerate() { for (j, b) in chains.iter().enumerate() {
+        if i == j || a.len() < 2 || b.len() < 2 { continue; }
+        let v = *a.last().unwrap();
+        if v == b[0] && indeg(v) == 1 && outdeg(v) == 1 { maximal = false; }
+    } }
+    r.check(maximal, "chaining: chains are maximal (two chains meet end-to-start only at an index where the continuation is not unique)", desc);
+    if let Some(n) = expect_chains {
+        r.check(chains.len() == n, "chaining: separate simple chains / loops come out as one chain each", || format!("{} expected {} chains", desc(), n));
+    }
+}
+fn run_many_chains(r: &mut Report, p: &Progress) {
+    // k separate simple loops (closed) or open chains of m links each; the pairs stored in 4 orders
+    for k in 1..=12usize { for m in [1usize, 2, 3, 4, 6, 9] { for closed in [false, true] {
+        if closed && m < 2 { continue; }
+        let mut pairs: Vec<[u32; 2]> = Vec::new();
+        for c in 0..k {
+            let base = (c * (m + 1)) as u32;
+            for l in 0..m {
+                let a = base + l as u32;
+                let b = if closed && l == m - 1 { base } else { base + l as u32 + 1 };
+                pairs.push([a, b]);
+            }
+        }
+        let n = pairs.len();
+        for order in 0..4usize {
+            let stored: Vec<[u32; 2]> = match order {
+                0 => pairs.clone(),
+                1 => pairs.iter().rev().copied().collect(),
+                2 => (0..n).map(|i| pairs[(i * 7 + 3) % n]).collect::<Vec<_>>(), // a permutation when gcd(7, n) == 1
+                _ => { let mut e: Vec<[u32; 2]> = pairs.iter().step_by(2).copied().collect(); e.extend(pairs.iter().skip(1).step_by(2).copied()); e }
+            };
+            if order == 2 && n % 7 == 0 { continue; }
+            p.at(&[5, k as i64, m as i64, closed as i64, order as i64]);
+            check_chain_big(r, &stored, &format!("{} separate {} of {} links each, storage order {}", k, if closed { "closed loops" } else { "open chains" }, m, order), Some(k));
+        }
+    } } }
+}
+
 pub fn run() -> Option<Report> {
     let mut r = Report::new("chained_indices: every list of <= 4 pairs over vertex ids 0..5 (406901 lists); clusters_from_sparse: every subset of a 2x2x2 block, a 3x3x1 slab and a 2x2x3 block of voxels (4864 sets, each twice); Mesh::calc_edges / get_patches / get_patch_boundary_points: every ordered list of <= 3 faces over 5 vertices that is consistently wound and free of vertex-only contacts, 11 larger hand-built meshes of that class in 6 storage variants each, create_box (4 sizes) and create_cylinder (steps 3..=16, 2 sizes), repeated 2-3 times per mesh for hash order; every <= 3 face list with an edge in three faces must be refused; each group under a progress watchdog (6 s per input). Vertex-only contacts and inconsistent winding are excluded (D7, D8)");
     guarded(&mut r, "chaining", "pairs (flattened)", run_chains);
@@ -520,5 +745,8 @@ pub fn run() -> Option<Report> {
     guarded(&mut r, "mesh", "faces (flattened)", run_small_meshes);
     guarded(&mut r, "mesh", "faces (flattened)", run_built_meshes);
     guarded(&mut r, "generators", "generator case", run_generators);
+    guarded(&mut r, "edge lengths", "case id", run_far_meshes);
+    guarded(&mut r, "patches (any winding)", "faces (flattened)", run_flipped_meshes);
+    guarded(&mut r, "chaining", "k chains / links / closed / storage order", run_many_chains);
     Some(r)
 }
